@@ -144,36 +144,47 @@ func c06randomOp(r *rng) c06op {
 
 // applyC06 applies op to row and returns the protocol rendering of the op (for maps: with
 // the entries in an order consistent with what the implementation did) and the error class.
+// c06LastOpText: the text of the op being applied, set before the row is called (kept when the call panics).
+var c06LastOpText string
+
+func c06OpText(c06op) string { return c06LastOpText }
+
 func applyC06(row jsonline.Row, op c06op) (string, string) {
 	switch op.kind {
 	case "set":
 		v := op.val()
 		s := "set K:" + hx([]byte(op.key)) + " " + dynStr(v)
+		c06LastOpText = s
 		row.Set(op.key, v)
 		return s, "-"
 	case "setat":
 		v := op.val()
 		s := fmt.Sprintf("setat %d %s", op.idx, dynStr(v))
+		c06LastOpText = s
 		row.SetAtIndex(op.idx, v)
 		return s, "-"
 	case "setv":
 		c := op.cell()
 		s := "setv K:" + hx([]byte(op.key)) + " " + valStr(c)
+		c06LastOpText = s
 		row.SetValue(op.key, c)
 		return s, "-"
 	case "setvat":
 		c := op.cell()
 		s := fmt.Sprintf("setvat %d %s", op.idx, valStr(c))
+		c06LastOpText = s
 		row.SetValueAtIndex(op.idx, c)
 		return s, "-"
 	case "iak":
 		v := op.val()
 		s := "iak K:" + hx([]byte(op.key)) + " " + dynStr(v)
+		c06LastOpText = s
 		err := row.ImportAtKey(op.key, v)
 		return s, errClass(err)
 	case "iai":
 		v := op.val()
 		s := fmt.Sprintf("iai %d %s", op.idx, dynStr(v))
+		c06LastOpText = s
 		err := row.ImportAtIndex(op.idx, v)
 		return s, errClass(err)
 	case "islice":
@@ -184,6 +195,7 @@ func applyC06(row jsonline.Row, op c06op) (string, string) {
 			parts[i] = dynStr(xs[i])
 		}
 		s := fmt.Sprintf("islice %d %s", len(xs), strings.Join(parts, " "))
+		c06LastOpText = s
 		err := row.Import(xs)
 		return strings.TrimSpace(s), errClass(err)
 	case "imap":
@@ -223,6 +235,7 @@ func applyC06(row jsonline.Row, op c06op) (string, string) {
 			parts = append(parts, "K:"+hx([]byte(k))+" "+rendered[k])
 		}
 		s := fmt.Sprintf("imap %d %s", len(order), strings.Join(parts, " "))
+		c06LastOpText = s
 		return strings.TrimSpace(s), errClass(err)
 	case "um":
 		err := row.UnmarshalJSON([]byte(op.json))
@@ -348,10 +361,15 @@ func runC06History(cw *caseWriter, ops []c06op) {
 	for _, op := range ops {
 		var s, e string
 		if p := guard(func() { s, e = applyC06(row, op) }); p != "" {
-			s, e = op.kind+" PANIC", "panic:"+p
+			// the op text is what applyC06 would have returned: it is computed before the call is made
+			s, e = c06OpText(op), "panic:"+strings.ReplaceAll(strings.ReplaceAll(p, "\t", " "), "\n", " ")
 		}
 		opStrs = append(opStrs, s)
-		obs = append(obs, observeC06(row, e))
+		var ob string
+		if p := guard(func() { ob = observeC06(row, e) }); p != "" {
+			ob = "e=" + e + " | PANIC while reading the row: " + strings.ReplaceAll(strings.ReplaceAll(p, "\t", " "), "\n", " ")
+		}
+		obs = append(obs, ob)
 		kinds[op.kind] = true
 		cw.count("op:" + op.kind)
 		if e != "-" {
